@@ -64,10 +64,14 @@ pub fn enable_filter() {
     ENABLED.with(|e| *e.borrow_mut() = true);
 }
 
+/// The runtime filter of the fixtures is STATEFUL ("enabled or disabled by any filter"): it gives its scripted answer
+/// to the first event it is shown and rejects everything after that — like a 1-in-N sampler. A span is put to the
+/// filter once, when it starts; its completion goes to the emitter unfiltered, so the answer at the start is the
+/// only one that counts.
 pub struct CtlF;
 impl Filter for CtlF {
     fn matches<E: emit::event::ToEvent>(&self, _: E) -> bool {
-        ENABLED.with(|e| *e.borrow())
+        ENABLED.with(|e| std::mem::replace(&mut *e.borrow_mut(), false))
     }
 }
 
